@@ -424,42 +424,175 @@ def r01_3(chk):
            'Laminate.rebuild', 'every ply is rebuilt (rotated matrix computed)', got=calls)
 
 
+class _Stop(Exception):
+    pass
+
+
+def _exec_laminaprop(fn, n):
+    """symbolic execution of read_laminaprop for a material tuple of length n (entries p0..p(n-1)): sequences are python lists of
+    Rat, scalars are Rat; tests on len() / None are decided; -> {attribute of the MatLamina object: Rat}"""
+    par = fn.args.args[0].arg
+    env = {par: [Rat(S('p%d' % k)) for k in range(n)]}
+    attrs = {}
+    obj = [None]
+
+    def ev(e):
+        if isinstance(e, ast.Constant):
+            if e.value is None:
+                return None
+            if isinstance(e.value, (int, float)) and not isinstance(e.value, bool):
+                return Rat(P.const(Fr(repr(e.value)) if isinstance(e.value, float) else Fr(e.value)))
+            raise _Stop('constant %r' % (e.value,))
+        if isinstance(e, ast.Name):
+            if e.id in env:
+                return env[e.id]
+            raise _Stop('name ' + e.id)
+        if isinstance(e, ast.Attribute) and isinstance(e.value, ast.Name) and e.value.id == obj[0]:
+            if e.attr in attrs:
+                return attrs[e.attr]
+            raise _Stop('attribute read before it is set: ' + e.attr)
+        if isinstance(e, (ast.Tuple, ast.List)):
+            return [ev(x) for x in e.elts]
+        if isinstance(e, ast.Call):
+            f = dotted(e.func)
+            if f in ('tuple', 'list') and len(e.args) == 1:
+                v = ev(e.args[0])
+                if isinstance(v, list):
+                    return list(v)
+            if f == 'len' and len(e.args) == 1:
+                v = ev(e.args[0])
+                if isinstance(v, list):
+                    return ('int', len(v))
+            if f == 'float' and len(e.args) == 1:
+                return ev(e.args[0])
+            raise _Stop('call ' + norm(e)[:40])
+        if isinstance(e, ast.Subscript):
+            v = ev(e.value)
+            if isinstance(v, list):
+                sl = e.slice
+                if isinstance(sl, ast.Slice):
+                    lo = sl.lower.value if isinstance(sl.lower, ast.Constant) else None if sl.lower is None else 'x'
+                    hi = sl.upper.value if isinstance(sl.upper, ast.Constant) else None if sl.upper is None else 'x'
+                    if 'x' in (lo, hi) or sl.step is not None:
+                        raise _Stop('slice')
+                    return v[lo:hi]
+                k = ev(sl)
+                if isinstance(k, Rat) and k.d == P.const(1) and set(k.n.t) <= {()}:
+                    k = int(k.n.t.get((), 0))
+                    if -len(v) <= k < len(v):
+                        return v[k]
+                    raise _Stop('index %d out of range for length %d' % (k, len(v)))
+            raise _Stop('subscript ' + norm(e)[:40])
+        if isinstance(e, ast.BinOp):
+            l, r = ev(e.left), ev(e.right)
+            if isinstance(l, list) and isinstance(r, list) and isinstance(e.op, ast.Add):
+                return l + r
+            if isinstance(l, Rat) and isinstance(r, Rat):
+                if isinstance(e.op, ast.Add):
+                    return l + r
+                if isinstance(e.op, ast.Sub):
+                    return l - r
+                if isinstance(e.op, ast.Mult):
+                    return l * r
+                if isinstance(e.op, ast.Div):
+                    return l / r
+            raise _Stop('operator in ' + norm(e)[:40])
+        if isinstance(e, ast.UnaryOp) and isinstance(e.op, ast.USub):
+            return Rat(P()) - ev(e.operand)
+        raise _Stop('expression ' + norm(e)[:40])
+
+    def test(t):
+        if isinstance(t, ast.BoolOp):
+            vals = [test(v) for v in t.values]
+            return all(vals) if isinstance(t.op, ast.And) else any(vals)
+        if isinstance(t, ast.UnaryOp) and isinstance(t.op, ast.Not):
+            return not test(t.operand)
+        if isinstance(t, ast.Compare) and len(t.ops) == 1:
+            l, r = ev(t.left), ev(t.comparators[0])
+            op = t.ops[0]
+            if isinstance(op, (ast.Is, ast.Eq)) and (l is None or r is None):
+                return l is None and r is None
+            if isinstance(op, (ast.IsNot, ast.NotEq)) and (l is None or r is None):
+                return not (l is None and r is None)
+
+            def num(x):
+                if isinstance(x, tuple) and x[0] == 'int':
+                    return x[1]
+                if isinstance(x, Rat) and x.d == P.const(1) and set(x.n.t) <= {()}:
+                    return x.n.t.get((), Fr(0))
+                raise _Stop('comparison of a symbolic value: ' + norm(t))
+            a_, b_ = num(l), num(r)
+            return {ast.Eq: a_ == b_, ast.NotEq: a_ != b_, ast.Lt: a_ < b_, ast.LtE: a_ <= b_, ast.Gt: a_ > b_, ast.GtE: a_ >= b_}[type(op)]
+        raise _Stop('test ' + norm(t)[:40])
+
+    def run(stmts):
+        for st in stmts:
+            if isinstance(st, ast.Assign):
+                v = None
+                if isinstance(st.value, ast.Call) and dotted(st.value.func) == 'MatLamina':
+                    for t in st.targets:
+                        obj[0] = t.id
+                    continue
+                v = ev(st.value)
+                for t in st.targets:
+                    if isinstance(t, ast.Name):
+                        env[t.id] = v
+                    elif isinstance(t, ast.Attribute) and isinstance(t.value, ast.Name) and t.value.id == obj[0]:
+                        attrs[t.attr] = v
+                    elif isinstance(t, (ast.Tuple, ast.List)) and isinstance(v, list) and len(v) == len(t.elts):
+                        for tt, vv in zip(t.elts, v):
+                            env[tt.id] = vv
+                    else:
+                        raise _Stop('target ' + norm(t))
+            elif isinstance(st, ast.If):
+                run(st.body if test(st.test) else st.orelse)
+            elif isinstance(st, ast.Expr):
+                continue
+            elif isinstance(st, ast.Return):
+                raise _Stop('return')
+            elif isinstance(st, ast.Raise):
+                raise _Stop('raise')
+            else:
+                raise _Stop('statement ' + type(st).__name__)
+    try:
+        run(fn.body)
+    except _Stop as e:
+        if str(e) not in ('return',):
+            return attrs, str(e)
+    return attrs, None
+
+
 def r01_4(chk):
+    """read_laminaprop, executed symbolically for material tuples of length 3, 6 and 9: the attributes of the MatLamina object as
+    rational functions of the entries (whatever temporaries, branch layout or tuple/list idiom the code uses)"""
     m = module(MATLAMINA)
     fn = m.function('read_laminaprop')
     fname = 'read_laminaprop'
-    # isotropic completion
-    iso = [n for n in fn.body if isinstance(n, ast.If) and norm(n.test) == 'len(laminaprop)==3']
-    ok = False
-    if len(iso) == 1:
-        env = {}
-        for st in iso[0].body:
-            if isinstance(st, ast.Assign) and isinstance(st.targets[0], ast.Name):
-                if isinstance(st.value, ast.Tuple):
-                    tup = [norm(e) for e in st.value.elts]
-                    ok = tup == ['e', 'e', 'nu', 'g', 'g', 'g', 'e', 'nu', 'nu']
-                else:
-                    try:
-                        env[st.targets[0].id] = from_ast(st.value, env, lambda n: P.sym(norm(n)), ring=Rat)
-                    except Exception:
-                        pass
-        g = env.get('g')
-        ok = ok and g is not None and g.equals(Rat(S('laminaprop[0]'), C(2) * (C(1) + S('laminaprop[2]')))) and \
-            env.get('e') is not None and env['e'].equals(Rat(S('laminaprop[0]'))) and env['nu'].equals(Rat(S('laminaprop[2]')))
-    chk.ob('R01.4', ok, MATLAMINA, fname, 'isotropic completion', expected='(e, e, nu, g, g, g, e, nu, nu) with g = e/(2(1+nu))',
-           sample='3-entry tuple -> (e,e,nu,g,g,g,e,nu,nu), g = e/(2(1+nu))')
-    idx = {}
-    for st in fn.body:
-        if isinstance(st, ast.Assign) and isinstance(st.targets[0], ast.Attribute) and dotted(st.targets[0]).startswith('matlam.'):
-            idx[st.targets[0].attr] = norm(st.value)
-    want = {'e1': 'laminaprop[0]', 'e2': 'laminaprop[1]', 'nu12': 'laminaprop[2]', 'g12': 'laminaprop[3]', 'g13': 'laminaprop[4]', 'g23': 'laminaprop[5]',
-            'nu21': 'matlam.nu12*matlam.e2/matlam.e1'}
-    for k, w in want.items():
-        chk.ob('R01.4', idx.get(k) == w, MATLAMINA, fname, 'constant ' + k, expected=w, got=idx.get(k), sample='matlam.%s = %s' % (k, w))
-    # 6-entry completion keeps the first six entries
-    six = [n for n in fn.body if isinstance(n, ast.If) and norm(n.test) == 'len(laminaprop)<9']
-    ok6 = len(six) == 1 and any(norm(s) == 'laminaprop=tuple(list(laminaprop)[:6]+[e2,nu12,nu12])' for s in six[0].body)
-    chk.ob('R01.4', ok6, MATLAMINA, fname, '6-entry completion keeps e1..g23', got=[norm(s) for s in six[0].body] if six else None)
+    p = [Rat(S('p%d' % k)) for k in range(9)]
+    two = Rat(C(2))
+    one = Rat(C(1))
+    n_ob = 0
+    for n, label in ((3, 'isotropic (E, E, nu)'), (6, 'orthotropic, in-plane (6 entries)'), (9, 'orthotropic (9 entries)')):
+        got, err = _exec_laminaprop(fn, n)
+        if n == 3:
+            e, nu = p[0], p[2]
+            g = e / (two * (one + nu))
+            full = [e, e, nu, g, g, g, e, nu, nu]
+        elif n == 6:
+            full = p[:6] + [p[1], p[2], p[2]]
+        else:
+            full = p[:9]
+        want = {'e1': full[0], 'e2': full[1], 'nu12': full[2], 'g12': full[3], 'g13': full[4], 'g23': full[5], 'e3': full[6], 'nu13': full[7], 'nu23': full[8],
+                'nu21': full[2] * full[1] / full[0], 'nu31': full[7] * full[6] / full[0], 'nu32': full[8] * full[6] / full[1]}
+        chk.ob('R01.4', err is None, MATLAMINA, fname, 'symbolic execution for a %d-entry tuple' % n, got=err, expected='every statement on the path understood')
+        for k, w in want.items():
+            g_ = got.get(k)
+            ok = isinstance(g_, Rat) and g_.equals(w)
+            n_ob += 1
+            chk.ob('R01.4', ok, MATLAMINA, fname, '%s: constant %s' % (label, k), expected=repr(w), got=repr(g_),
+                   detail='' if ok else 'the engineering constant read from / completed for a %d-entry material tuple is not the documented one' % n,
+                   sample='%d entries: matlam.%s = %r' % (n, k, w) if k in ('e1', 'nu21', 'g12', 'e3') else None)
+    chk.floor('R01.4 constants', n_ob, 36)
 
 
 def run(chk):
